@@ -157,6 +157,8 @@ pub enum Beh {
     PanicFetch(u16),
     /// panic inside `run` on dispatch number `.0`
     PanicRun(u16),
+    /// panic at the end of `run`, after the system has read and written through its guards
+    PanicLate(u16),
     /// block inside `run` until `.0` systems are inside `run` (rendezvous group of the dispatch)
     Rendezvous(u16),
 }
@@ -525,6 +527,12 @@ impl<'a> System<'a> for HSys {
         o[id].push(oh);
         drop(o);
         sched_point();
+        if let Beh::PanicLate(n) = ctx.beh_of(id) {
+            if n == u16::MAX || n == ctx.cur_dispatch() {
+                // `d` (the guards, written through) is dropped by the unwinding
+                panic!("{} run sys={}", PANIC_MARK, id);
+            }
+        }
     }
 
     fn running_time(&self) -> RunningTime {
@@ -789,6 +797,44 @@ impl StaticKind for SReadAWriteC {
         let old = d.1 .0;
         d.1 .0 = old.wrapping_mul(P).wrapping_add(mix(h, a));
         vec![a, old]
+    }
+}
+
+pub struct SOptReadAThenReadA;
+impl StaticKind for SOptReadAThenReadA {
+    type Data<'c> = (Option<Read<'c, Cell0>>, Read<'c, Cell0>);
+    fn touch(d: &mut Self::Data<'_>, _: u64) -> Vec<u64> {
+        vec![d.1 .0]
+    }
+}
+pub struct SNamingThenProviding;
+impl StaticKind for SNamingThenProviding {
+    type Data<'c> = ((shred::ReadExpect<'c, Cell0>, Option<Read<'c, Cell1>>), (Read<'c, Cell0>, Read<'c, Cell1>));
+    fn touch(d: &mut Self::Data<'_>, _: u64) -> Vec<u64> {
+        vec![d.1 .0 .0, d.1 .1 .0]
+    }
+}
+
+/// derived bundle, generic over the resource it reads: every instantiation declares ITS resource
+#[derive(shred::SystemData)]
+pub struct GenRead<'a, T>
+where
+    T: shred::Resource + Default,
+{
+    v: Read<'a, T>,
+}
+pub struct SGenReadA;
+impl StaticKind for SGenReadA {
+    type Data<'c> = GenRead<'c, Cell0>;
+    fn touch(d: &mut Self::Data<'_>, _: u64) -> Vec<u64> {
+        vec![d.v.0]
+    }
+}
+pub struct SGenReadC;
+impl StaticKind for SGenReadC {
+    type Data<'c> = GenRead<'c, Cell1>;
+    fn touch(d: &mut Self::Data<'_>, _: u64) -> Vec<u64> {
+        vec![d.v.0]
     }
 }
 
